@@ -322,7 +322,9 @@ def engine_dependent(stmt) -> set:
               grouping or ordering expression (every literal is a separate bind parameter: DuckDB cannot match the
               select item with the key); ``set-operand-order`` ordering or limit inside a set operand (SQLite has no
               parenthesised compound operands); ``having-no-group`` having without grouping over non-aggregates (no SQL
-              denotation; both engines reject it)."""
+              denotation; both engines reject it); ``full-join`` FULL OUTER JOIN (new in SQLite 3.39; SQLite 3.40 was observed
+              to return no rows for ``(D JOIN C ON .. AND <constant false>) FULL OUTER JOIN A ON ..`` where DuckDB and the
+              reference agree on the NULL-extended rows of A)."""
     found = set()
     for n in A.walk(stmt):
         f, t = n.get('f'), n.get('t')
@@ -335,6 +337,8 @@ def engine_dependent(stmt) -> set:
         elif f in ('arith', 'agg'):
             if any(x.get('f') == 'lit' and x['kind'] in ('int', 'float') and abs(x['v']) > 2**31 for x in A.walk(n)):
                 found.add('big-arith')
+        elif t == 'join' and n['kind'] == 'full':
+            found.add('full-join')
         elif t == 'set':
             for side in (n['left'], n['right']):
                 if side['t'] == 'query' and (side.get('orderby') or side.get('limit') is not None):
